@@ -214,6 +214,15 @@ func properties() []Property {
 			Assumptions: []string{"the real errorSort runs (error lists are compared as sequences)"},
 		},
 		{
+			ID: "C05",
+			Harnesses: []Harness{
+				{Name: "H05", Pkg: "yang", Fn: "H05", Quick: map[string]int{"orders": 3}, Thorough: map[string]int{"orders": 6}, MapOrder: "Module|Typedef|resolvedIdentity|deviationType|Entry|Node", MapBudget: 1,
+					Reach: []string{"compared"}, MaxSteps: 800000000, TimeoutMs: 30000, MaxPaths: 2000000,
+					Bound: "five four-module schemas (same-named identities from modules sharing a prefix; chained and choice augments from three modules; eight independent errors in four modules; two modules augmenting the same name; two revisions of a module with importers and a deviating module with five deviate statements): run once in written load order and insertion map order, then again in one of 3 (thorough 6) load orders, with one range event over any of the library's maps (keys or values of type Module, Typedef, resolvedIdentity, deviationType, Entry, Node; up to 4 entries) taking any permutation, at any position in either run", Outside: "two or more simultaneously perturbed range events; maps with more than 4 entries; other schemas; the goyang binary's actual stdout (tree/types formatters are not run by this harness)"},
+			},
+			Assumptions: []string{"map iteration order is a symbolic choice made by the solver at each eligible range event (engine semantics, DESIGN 2.4); native replay of a counterexample repeats the run 150 times and needs two different outcomes"},
+		},
+		{
 			ID: "C10",
 			Harnesses: []Harness{
 				{Name: "H10a-int", Pkg: "yang", Fn: "H10a", Quick: map[string]int{"k": 2, "p": 2, "mm": 1, "fdlo": 0, "fdhi": 0},
